@@ -1,9 +1,11 @@
 mod alloc;
 mod check;
+mod engine;
 mod families;
 mod generate;
 mod oracles;
 mod pool;
+mod repl_engine;
 mod rng;
 mod scenarios;
 mod shrink;
@@ -44,7 +46,7 @@ fn main() {
             let tier = args.get(3).map(|s| s.as_str()).unwrap_or("quick");
             let code = match prop {
                 "C01" | "C02" | "C03" | "C04" | "C05" | "C06" | "C07" | "C08" | "C09" | "C10" | "C11" | "C12" | "C16" => {
-                    check::check_replication(prop, tier)
+                    check::check::<repl_engine::Repl>(prop, tier, "exploration", serde_json::Value::Null)
                 }
                 _ => {
                     eprintln!("harness error: no check for {prop}");
@@ -55,10 +57,21 @@ fn main() {
         }
         Some("worker") => {
             let p = |i: usize| -> u64 { args[i].parse().unwrap() };
-            check::worker(&args[2], p(3), p(4), p(5), p(6));
+            match args[2].as_str() {
+                "replication" => check::worker::<repl_engine::Repl>(&args[3], p(4), p(5), p(6), p(7)),
+                f => families::worker(f, &args[3], p(4), p(5), p(6), p(7)),
+            }
         }
         Some("replay") => {
-            std::process::exit(check::replay(&args[2]));
+            let r = match check::replay_file(&args[2]) {
+                Ok(r) => r,
+                Err(c) => std::process::exit(c),
+            };
+            let code = match r.family.as_str() {
+                "replication" => check::replay::<repl_engine::Repl>(&r),
+                _ => families::replay(&r),
+            };
+            std::process::exit(code);
         }
         Some("scenarios") => {
             for sc in scenarios::all() {
@@ -75,7 +88,7 @@ fn main() {
             let seed: u64 = args[3].parse().unwrap();
             let index: u64 = args[4].parse().unwrap();
             let trace = generate::generate(rng::run_seed(seed, prop, index), prop);
-            let (t, runs) = shrink::shrink(&trace, &args[5], &args[6], 3000);
+            let (t, runs) = shrink::shrink::<repl_engine::Repl>(&trace, &args[5], &args[6], 3000);
             println!("shrunk to {} steps in {runs} runs", t.steps.len());
             let s = sim::Sim::run(&t, true);
             for l in &s.trace_log {
